@@ -137,8 +137,11 @@ fn nb_cli_sign_hash_pairing() {
         }
         // replay protection guard
         {
-            let v = with(&["sign", "transaction", "-"]);
-            ordinary_error(&v.iter().map(String::as_str).collect::<Vec<_>>(), &[], Some(LEGACY_NOCHAIN.as_bytes()));
+            // refused in both output modes unless the override flag is given
+            for flags in [&["sign", "transaction", "-"][..], &["sign", "transaction", "--signature-only", "-"][..]] {
+                let v = with(flags);
+                ordinary_error(&v.iter().map(String::as_str).collect::<Vec<_>>(), &[], Some(LEGACY_NOCHAIN.as_bytes()));
+            }
             let sig = sign(&["sign", "transaction", "--signature-only", "--allow-missing-relay-protection", "-"], LEGACY_NOCHAIN.as_bytes());
             assert!(sig.ends_with("1b") || sig.ends_with("1c"));
             let raw = sign(&["sign", "transaction", "--allow-missing-relay-protection", "-"], LEGACY_NOCHAIN.as_bytes());
